@@ -460,7 +460,10 @@ partial def jYaml (j : Json) : E Yaml := do
   | some s => do
     let t ← (← s.getArrVal? 0).getStr?
     let p ← (← s.getArrVal? 1).getBool?
-    pure (.scalar t.toList p)
+    -- a tag is transparent to typed fields, except that a tagged `~` / `null` / empty scalar is no longer an
+    -- absent value: it reads as that text
+    let tagged := (jOpt j "tag").isSome
+    pure (.scalar t.toList (if tagged && M.nullTexts.contains t.toList then false else p))
   | none =>
   match jOpt j "seq" with
   | some a => do pure (.seq (← (← a.getArr?).toList.mapM jYaml))
